@@ -13,16 +13,14 @@ package bundler
 //@   opt pure
 //@   ensures true
 
-//@ spec func isProtected(b *Bundle, m map[string]uint32, sourceIndex uint32) bool =
-//@     b.files[sourceIndex].inputFile.Source.KeyPath.Namespace == "file" ==>
-//@         inDom(m, canonicalFileSystemPathForWindows(b.files[sourceIndex].inputFile.Source.KeyPath.Text))
-
-//@ func (*Bundle).Compile
-//@   arith int
-//@   prop C17
-//@   loop 3 invariant covered: forall k int :: 0 <= k && k <= rangeindex ==> isProtected(b, sourceAbsPaths, allReachableFiles[k])
-//@   loop 3 invariant -1 <= rangeindex && rangeindex < len(allReachableFiles) || (len(allReachableFiles) == 0 && rangeindex == -1)
-//@   loop 3 exit all-inputs-protected: forall k int :: 0 <= k && k < len(allReachableFiles) ==> isProtected(b, sourceAbsPaths, allReachableFiles[k])
+// The set is filled by one loop; that every reachable file is entered is stated on that loop's map update: the value
+// entered ranges over allReachableFiles (not a smaller list such as the entry points), and nothing but "the key path is
+// in the file namespace" (and the two options that switch the whole check off) stands in front of the update. (An
+// earlier revision proved this as a Mode-A loop invariant over canonical(keyPath.Text); it restated the key the code
+// used, and stopped proving when defect 50 was repaired by cleaning the path first. The rules below do not depend on
+// the form of the key; that form has its own rule.)
+//@ flow protected-set-ranges-over-all-reachable-files C17: func=(*Bundle).Compile ; in=bundler ; site=mapupdate sourceAbsPaths ; mapvalue=call findReachableFiles(files,b.entryPoints)[*]
+//@ guarded every-file-input-is-protected C17: func=(*Bundle).Compile ; in=bundler ; site=mapupdate sourceAbsPaths ; allow-only=true:phi:rangeindex+1<call len(call findReachableFiles(files,b.entryPoints)) && true:*Namespace=="file" && false:options.AllowOverwrite && false:options.WriteToStdout && false:call DidCancel(*) && false:phi:rangeindex+1<call len(*)
 
 // ----------------------------------------------------------------------------------------------
 // C18: the name of a "file"/"copy" loader output gets a content hash exactly when the template that
@@ -70,3 +68,15 @@ package bundler
 // the context-wide cache and never reused, so it counts every path the context has ever seen.
 //@ decides metafile-chunk-skips-css-stubs C19 C09: func=(*scanner).processScannedFiles ; in=bundler ; site=store scannerFile.jsonMetadataChunk ; control=1 ; scenario=metafile_css_stub_dup ; must=JSRepr.CSSSourceIndex
 //@ guarded metafile-format-measures-this-build C19 C09: func=(*scanner).processScannedFiles ; in=bundler ; site=store Options.MetafileFormat ; scenario=metafile_minified_after_history ; forbid=true:call len(s.results)>256
+
+// C17 ("never overwrites ... a file that was one of its inputs"): the overwrite check compares path TEXT. Output paths
+// are built with fs.Join/fs.Rel and are therefore clean; an input path may come verbatim from a plugin
+// (`<dir>/./src/entry.js`) and names the same file. Both sides must be in the same normal form: every path handed to
+// the canonicaliser in Compile is an output's AbsPath or has been cleaned by fs.Join.
+//@ flow overwrite-check-compares-clean-paths C17: func=(*Bundle).Compile ; in=bundler ; site=call canonicalFileSystemPathForWindows ; scenario=plugin_unclean_path ; argpath=0:*.AbsPath OR call Join(*)
+
+// C19 ("every import listed for an input is an import the input makes"): an import record is written to the metafile as
+// `"external": true` only if it IS an import of the file that was left unresolved on purpose. Two kinds of record reach
+// that branch without being such: records the parser marked unused (type-only TypeScript imports: they are not in the
+// output and were never resolved), and the parser's own synthetic import of the runtime (its SourceIndex is preset).
+//@ guarded external-import-entries-are-real-imports C19: func=(*scanner).processScannedFiles ; in=bundler ; site=call MaybeRemoveWhitespace ; when-arg=1:*external*true* ; scenario=metafile_phantom_external_imports ; require=false:call Has(*.Flags,*) && false:*.SourceIndex==call MakeIndex32(*)
